@@ -17,7 +17,7 @@ def obs_pdo(it):
 def run(ctx):
     q = ctx.tier == "quick"
     ctx.assumptions += [
-        "component-wise: (L) LSS slave incl. partial selective / identify sequences and pending configuration, (N) NMT + heartbeat producer + two heartbeat consumers + application timers + EMCY flag, (P) SYNC producer/consumer + event TPDO with inhibit/event timers + synchronous RPDO, (C) SDO client with running transfers, (E) EMCY errors / register; reset communication and reset node in every reachable state of each bounded model",
+        "(E32) the EMCY model with the full table of 32 errors (identifiers at the byte boundaries of the error-status storage) across COEmcyReset and NMT resets", "component-wise: (L) LSS slave incl. partial selective / identify sequences and pending configuration, (N) NMT + heartbeat producer + two heartbeat consumers + application timers + EMCY flag, (P) SYNC producer/consumer + event TPDO with inhibit/event timers + synchronous RPDO, (C) SDO client with running transfers, (E) EMCY errors / register; reset communication and reset node in every reachable state of each bounded model",
         "in each model TLC checks 'state after reset = FreshFrom(current dictionary values)' (application values and application timers untouched); the SDO server part is covered by the reset probe of C05",
         "the probe after the reset observes: free timer slots (pool of 16, application timers keep their slots), mode, heartbeat timing, consumer monitoring from the first heartbeat, SYNC production and consumption, PDOs silent until OPERATIONAL, client idle and usable, errors cleared",
         "the ring position of the EMCY history is not a dictionary value: reads of 1003h:n are not part of the probe (C15 owns the history)",
@@ -26,12 +26,13 @@ def run(ctx):
             ("MCPdo", "C20P", node_common.make_preamble(pdo_check.fix), obs_pdo, None),
             ("MCCsdo", "C20C", node_common.make_preamble(C19.fix), lambda it: C19.observe(it), None),
             ("MCEmcy", "C20E", node_common.make_preamble(C15.fix), C15.observe, None),
+            ("MCEmcy", "C15W", node_common.make_preamble(C15.fix), C15.observe, None),
             ("MCLss", "C20L", node_common.make_preamble(C18.fix), C18.observe, None)]
     for module, pid, pre, obs, genq in plan:
         ctx.mc(module, "%s_mc.cfg" % pid, timeout=2500)
         behs = ctx.gen_edges(module, genq if (q and genq) else "%s_gen.cfg" % pid, timeout=3000)
         if q:
-            behs = common.thin(behs, 7000, ctx.seed)
+            behs = common.thin(behs, 5000, ctx.seed)
         ctx.replay(behs, pre, obs, ordered=node_check.tick_unordered, label="edges_" + pid)
         w = ctx.gen_walks(module, "%s_walk.cfg" % pid, num=40 if q else 1500, depth=45, timeout=2500)
         ctx.replay(w, pre, obs, ordered=node_check.tick_unordered, label="walks_" + pid)
